@@ -281,6 +281,7 @@ Definition exec (ps : pstate_) (toks : list str) : pstate_ * str :=
         | Some s =>
           let sl := get_slot st s in
           let sl := if s_has_sp sl then sl else mk_slot (s_url sl) true (parse_query_list (s_url sl)) in
+          if is_none (s_url sl) then (put ps s sl, lit "sp valid=0 skipped") else
           if tok_is name "snapshot" then
             match rest with
             | [tk] => match slot_of tk with
@@ -496,6 +497,33 @@ Definition exec (ps : pstate_) (toks : list str) : pstate_ * str :=
             | None => (ps, exc_url_error)
             end
         | _, _ => (ps, err)
+        end
+      | _ => (ps, err)
+      end
+    else if tok_is c "filert" then
+      match args with
+      | [tf; ta] =>
+        match parse_arg ta with
+        | Some a =>
+          let posix := tok_is tf "posix" in
+          match url_from_file_path idna posix (fst a) (snd a) with
+          | None => (ps, lit "filert reject")
+          | Some u1 =>
+            match path_from_file_url posix u1 with
+            | None => (ps, lit "filert accepted toerr host=" ++ hx (get_hostname u1))
+            | Some p1 =>
+              match url_from_file_path idna posix EU8 p1 with
+              | None => (ps, lit "filert accepted p1=" ++ hx p1 ++ lit " again-err host=" ++ hx (get_hostname u1))
+              | Some u2 =>
+                match path_from_file_url posix u2 with
+                | None => (ps, lit "filert accepted p1=" ++ hx p1 ++ lit " again-err host=" ++ hx (get_hostname u1))
+                | Some p2 => (ps, lit "filert accepted p1=" ++ hx p1 ++ lit " p2=" ++ hx p2 ++ lit " host=" ++ hx (get_hostname u1)
+                                   ++ lit " href=" ++ hx (serialize u1 false))
+                end
+              end
+            end
+          end
+        | None => (ps, err)
         end
       | _ => (ps, err)
       end
